@@ -102,10 +102,16 @@ def gen_packages(run, n):
     return pkgs, stats
 
 
-def gen_runs(rng, optfields, thorough, nonbool=None):
-    """[(entry, [field,...])]; a repeated option is put on a non-bool field when there is one (two bool
-    sentinels can coincide, which would hide which of the two options won)"""
+def nilable(typ):
+    return typ.startswith("*") or typ.startswith("[]") or typ.startswith("map[")
+
+
+def gen_runs(rng, optfields, thorough, nonbool=None, nilables=()):
+    """[(entry, [(field, zero?), ...])]; a repeated option is put on a non-bool field when there is one (two bool
+    sentinels can coincide).  Options on pointer / slice / map fields also carry the ZERO value (nil): alone (it must
+    override a default) and after an earlier non-nil option on the same field (the later nil must win)."""
     nonbool = [f for f in optfields if nonbool is None or f in nonbool]
+    nilables = [f for f in optfields if f in nilables]
     runs = []
     nseq = 5 if thorough else 3
     for entry in (0, 1, 2):
@@ -116,11 +122,21 @@ def gen_runs(rng, optfields, thorough, nonbool=None):
                 ln = rng.choice([0, 1, 2, 2, 3, 3, 4, 4])
                 if k == 0 and entry == 0:
                     ln = max(ln, 2)
-                seq = [rng.choice(optfields) for _ in range(ln)]
+                seq = [(rng.choice(optfields), False) for _ in range(ln)]
                 if ln >= 2 and rng.random() < 0.5:
                     if nonbool:
-                        seq[0] = rng.choice(nonbool)
+                        seq[0] = (rng.choice(nonbool), False)
                     seq[-1] = seq[0]                 # a repeated option: the later one must win
+                if nilables and (k == 1 or rng.random() < 0.3):
+                    f = rng.choice(nilables)
+                    style = rng.random()
+                    if style < 0.4 or ln == 0:
+                        seq = seq[:3] + [(f, True)]                       # nil alone / last: overrides default and NewT's value
+                    elif style < 0.8:
+                        seq = seq[:2] + [(f, False), (f, True)]           # non-nil, then nil: nil wins
+                    else:
+                        seq = seq[:2] + [(f, True), (f, False)]           # nil, then non-nil
+                seq = [(f, z and f in nilables) for f, z in seq]
             runs.append((entry, seq))
     return runs
 
@@ -153,8 +169,9 @@ def oracle_for_struct(pkg, sd, optfn, runs, key):
     lines.append('\t})')
     for k, (entry, seq) in enumerate(runs):
         cid = json.dumps("%s.%s#%d" % (key[0], key[1], k))
-        args = ", ".join('ort.Arg[%s](%s, %s, %d)' % (opt_t, json.dumps(str(j)), optfn[f], 100 + j)
-                         for j, f in enumerate(seq))
+        args = ", ".join(('ort.ArgZero[%s](%s, %s)' % (opt_t, json.dumps(str(j)), optfn[f])) if z else
+                         ('ort.Arg[%s](%s, %s, %d)' % (opt_t, json.dumps(str(j)), optfn[f], 100 + j))
+                         for j, (f, z) in enumerate(seq))
         if entry == 0:
             lines.append('\tort.Case(%s, New%s, 0, func(r any) {' % (cid, T))
             lines.append('\t\tv := r.(*%s)' % T)
@@ -256,7 +273,8 @@ def observe(run, shoot, sigbin, modname, pkgs):
                 if fn in optfns:
                     byfield[name] = fn
             nonbool = {f for f, fn in byfield.items() if optfns[fn]["params"][0][1] != "bool"}
-            runs = gen_runs(run.rng, sorted(byfield), run.thorough(), nonbool)
+            nils = {f for f, fn in byfield.items() if nilable(optfns[fn]["params"][0][1])}
+            runs = gen_runs(run.rng, sorted(byfield), run.thorough(), nonbool, nils)
             sd["_runs"] = runs
             body += oracle_for_struct(pkg, sd, byfield, runs, key)
         if body:
@@ -286,7 +304,8 @@ def observe(run, shoot, sigbin, modname, pkgs):
                     break
                 if entry == 0:
                     o["args"] = c["args"]
-                rr = {"entry": entry, "fields": seq, "opttoks": [""] * len(seq), "panic": bool(c["panics"]),
+                rr = {"entry": entry, "fields": [f for f, _ in seq], "zero": [z for _, z in seq],
+                      "opttoks": [""] * len(seq), "panic": bool(c["panics"]),
                       "before": [], "after": [], "panics": c["panics"]}
                 for kind, kk, tok in c["reads"]:
                     if kind == "A":
@@ -301,8 +320,9 @@ def observe(run, shoot, sigbin, modname, pkgs):
 
 def coq_run(r):
     cs, cl, cp = ctorgen.coq_str, ctorgen.coq_list, ctorlib.coq_path
-    return ("{| r_entry := %d; r_fields := %s; r_opttoks := %s; r_panic := %s; r_before := %s; r_after := %s |}"
-            % (r["entry"], cl([cs(f) for f in r["fields"]]), cl([cs(t) for t in r["opttoks"]]),
+    return ("{| r_entry := %d; r_fields := %s; r_zero := %s; r_opttoks := %s; r_panic := %s; r_before := %s; r_after := %s |}"
+            % (r["entry"], cl([cs(f) for f in r["fields"]]), cl(["true" if z else "false" for z in r["zero"]]),
+               cl([cs(t) for t in r["opttoks"]]),
                "true" if r["panic"] else "false",
                ctorlib.coq_pairs(r["before"], cp, cs), ctorlib.coq_pairs(r["after"], cp, cs)))
 
@@ -443,6 +463,7 @@ def main(run):
     nontrivial = set()
     entry_hist, len_hist = {}, {}
     repeats = panics = with_defaults = 0
+    nil_opts = nil_after_value = nil_over_default = 0
     for i, (pkg, sd) in enumerate(index):
         o = obs[(pkg["name"], sd["name"])]
         if verdicts.get(i, 0) != 0:
@@ -452,11 +473,21 @@ def main(run):
             entry_hist[r["entry"]] = entry_hist.get(r["entry"], 0) + 1
             len_hist[len(r["fields"])] = len_hist.get(len(r["fields"]), 0) + 1
             rep = len(set(r["fields"])) < len(r["fields"])
+            zs = r.get("zero", [])
+            if any(zs):
+                nil_opts += 1
+                deffields = {k for k, _ in o["defs"]}
+                for j, (f, z) in enumerate(zip(r["fields"], zs)):
+                    if z and any(f2 == f and not z2 for f2, z2 in list(zip(r["fields"], zs))[:j]):
+                        nil_after_value += 1
+                        break
+                if any(z and f in deffields for f, z in zip(r["fields"], zs)):
+                    nil_over_default += 1
             repeats += rep
             panics += r["panic"]
             with_defaults += bool(o["defs"])
             if rep or (o["defs"] and r["fields"]) or len(r["fields"]) >= 2:
-                nontrivial.add(json.dumps([ctorgen.render_struct(sd), pkg["short"], r["entry"], r["fields"]]))
+                nontrivial.add(json.dumps([ctorgen.render_struct(sd), pkg["short"], r["entry"], r["fields"], r.get("zero")]))
     compared = sum(1 for i in range(len(index)) if verdicts.get(i, 0) == 0)
     samples = []
     for i in (0, len(index) // 2, len(index) - 1):
@@ -464,7 +495,7 @@ def main(run):
         o = obs[(pkg["name"], sd["name"])]
         samples.append({"package": pkg["name"], "struct": sd["name"], "cmd": "shoot " + " ".join(pkg["args"]),
                         "source": ctorgen.render_struct(sd), "options": o["options"],
-                        "runs": [{k: r[k] for k in ("entry", "fields", "panic", "after")} for r in o["runs"][:3]],
+                        "runs": [{k: r[k] for k in ("entry", "fields", "zero", "panic", "after")} for r in o["runs"][:3]],
                         "verdict": verdicts.get(i, 0)})
     cov = {
         "evaluations": sum(len(obs[(p["name"], s["name"])]["runs"]) for p, s in index),
@@ -485,7 +516,8 @@ def main(run):
         "runs_property_not_evaluated": panics,
         "runs_by_entry": {str(k): v for k, v in sorted(entry_hist.items())},
         "runs_by_length": {str(k): v for k, v in sorted(len_hist.items())},
-        "runs_with_repeated_option": repeats, "runs_panicking_as_modelled": panics,
+        "runs_with_repeated_option": repeats, "runs_with_nil_option": nil_opts,
+        "runs_nil_after_non_nil_same_field": nil_after_value, "runs_nil_option_on_field_with_default": nil_over_default, "runs_panicking_as_modelled": panics,
         "runs_on_types_with_defaults": with_defaults,
         "short_packages": sum(1 for p in pkgs if p["short"]),
         "generator": gstats,
